@@ -114,7 +114,7 @@ class Blaupunkt(protocol_base.IrProtocolBase):
                 self._saved_codes.append(code)
                 raise RepeatLeadInError
             else:
-                del self._daved_codes[:]
+                del self._saved_codes[:]
                 raise DecodeError
         except LeadOutError:
             self._lead_out = self._lead_out2
